@@ -401,7 +401,7 @@ def spec_kind(x):
 def host(g, i0, pattern, hess):
     """host matrix: the pattern at the block offset, plus sentinels around the block (same rows, same columns, corners)"""
     rows = i0 + g.dof + 2
-    cols = rows * rows if hess else rows
+    cols = rows * (rows + 1) if hess else rows      # a Hessian host wider than rows^2 (the writers only require cols >= rows (i0 + Dof)): the block stride is the row count, not cols / rows
     e = {}
     block = {}
     for (r, c) in pattern:
